@@ -398,6 +398,11 @@ def run(chk):
                     evkinds[k] = evkinds.get(k, 0) + 1
             for p in probs:
                 seen_sigs.setdefault(p[0], (lines, p))
+    nef = chk.cov.get('status', {}).get('not-error-free', 0)
+    if nef:
+        chk.notes.append('%d of %d generated histories raised a MIR error / failed to compile and were discarded' % (nef, len(scen)))
+    if nef * 4 > len(scen):
+        raise vlib.BuildError('%d of %d histories are not error-free: the scenario generator no longer matches the library' % (nef, len(scen)))
     for k, v in evkinds.items():
         chk.dist('events', EVNAMES.get(k, k), v)
     chk.cov['rule'] = ('each case is an API history (script for harness/c17_alloc.c) run on the real library with checking '
